@@ -139,9 +139,11 @@ class Check:
         new_viol: list[Finding] = []
         for f in viol:
             # an entry names the failing construct by the exact instance key, or - for an input that a rule evaluates in several places
-            # (depths, statement kinds, pairings) - by the input's own text inside the key ("key_contains")
+            # (depths, statement kinds, pairings) - by the input's own text inside the key ("key_contains"); "msg_contains" narrows an entry to
+            # one way of failing (the printed text is rejected) so that the same input failing otherwise (a changed value) is still reported
             ent = next((k for k in known if k.get("property") == self.prop and k.get("rule") == f.rule and k.get("status") == "known"
-                        and (k.get("key") == f.key or (k.get("key_contains") and k["key_contains"] in f.key))), None)
+                        and (k.get("key") == f.key or (k.get("key_contains") and k["key_contains"] in f.key))
+                        and (not k.get("msg_contains") or k["msg_contains"] in f.msg)), None)
             if ent is not None:
                 known_hits.append((f, ent))
             else:
